@@ -62,6 +62,11 @@ check("C15", "exploration",
       "Harness: instrumented futures, channels and the reference model are ours; the executor crate is real, rebuilt from /repo. Sampling (hundreds of thousands of task systems per quick run), not exhaustive enumeration.",
       "deterministic simulation of wake/poll orderings with lock-step reference scheduler model", "DESIGN.md section 4 C15")
 
+check("C12", "exploration",
+      "One invariant checker (the statement's invariants through the public JobList API, job-ID resolution, plus the transition rules documented on insert/remove/update_status/set_current_job), two engines: seeded event histories of up to 30 events applied to the real JobList - the legal oddities a kernel may deliver in any order, including pid reuse by a new job, duplicate and unexpected reports, reports for unknown pids - checked after every event; and whole-shell runs under set -m on the simulated OS where children stop themselves, are stopped, continued and killed by the script and by the simulator at seeded steps under seeded schedules, with a jobcheck probe evaluating the invariants on Env::jobs after every command, inside loops and functions and from the EXIT trap.",
+      BASE_NOTE + " Histories are sampled with swarm-varied event mixes, not enumerated breadth-first (that would be model checking).",
+      "deterministic simulation: seeded job-event histories + whole-shell job control with simulator-injected stop/continue/kill; invariant checker", "DESIGN.md section 4 C12")
+
 import os
 selected = os.environ.get("MANIFEST_ONLY")
 manifest = {
